@@ -623,7 +623,7 @@ func (vm *VM) execEq() error {
 		return err
 	}
 
-	result := vm.valuesEqual(a, b)
+	result := vm.looselyEqual(a, b)
 	vm.Push(BoolValue{Val: result})
 	return nil
 }
@@ -639,7 +639,7 @@ func (vm *VM) execNe() error {
 		return err
 	}
 
-	result := !vm.valuesEqual(a, b)
+	result := !vm.looselyEqual(a, b)
 	vm.Push(BoolValue{Val: result})
 	return nil
 }
@@ -1301,6 +1301,23 @@ func (vm *VM) readOperand() (uint32, error) {
 }
 
 // valuesEqual checks if two values are equal
+// looselyEqual is the == of the language: an int and a float are compared by
+// value, as arithmetic and ordering already do and as the interpreter's ==
+// does; everything else is valuesEqual.
+func (vm *VM) looselyEqual(a, b Value) bool {
+	switch av := a.(type) {
+	case IntValue:
+		if bv, ok := b.(FloatValue); ok {
+			return float64(av.Val) == bv.Val
+		}
+	case FloatValue:
+		if bv, ok := b.(IntValue); ok {
+			return av.Val == float64(bv.Val)
+		}
+	}
+	return vm.valuesEqual(a, b)
+}
+
 func (vm *VM) valuesEqual(a, b Value) bool {
 	switch av := a.(type) {
 	case IntValue:
@@ -1311,6 +1328,29 @@ func (vm *VM) valuesEqual(a, b Value) bool {
 		if bv, ok := b.(FloatValue); ok {
 			return av.Val == bv.Val
 		}
+	case ArrayValue:
+		bv, ok := b.(ArrayValue)
+		if !ok || len(av.Val) != len(bv.Val) {
+			return false
+		}
+		for i := range av.Val {
+			if !vm.looselyEqual(av.Val[i], bv.Val[i]) {
+				return false
+			}
+		}
+		return true
+	case ObjectValue:
+		bv, ok := b.(ObjectValue)
+		if !ok || len(av.Val) != len(bv.Val) {
+			return false
+		}
+		for k, x := range av.Val {
+			y, exists := bv.Val[k]
+			if !exists || !vm.looselyEqual(x, y) {
+				return false
+			}
+		}
+		return true
 	case BoolValue:
 		if bv, ok := b.(BoolValue); ok {
 			return av.Val == bv.Val
